@@ -11,8 +11,8 @@ CLAIMED = {
          "Messages (length 0..2000) over every (Word,State) of the menu with per-symbol precision changes are encoded into six sink kinds, sealed, and decoded through eight source kinds; oracles: FIFO equality, empty message => no words, maybe_exhausted after the last symbol, batch forms equal the loop. The generator uses the public encoder state to steer lower/range into Inverted situations (num_inverted>=3), carry / no-carry resolutions, seal-while-inverted and range == threshold.",
          "This is the fault-free configuration of the channel whose fault-injecting configurations are C09/C10/C11; TableModel trusted; sampling.", "DESIGN 3 C02"),
  "C10": ("exploration", "deterministic simulation with fault injection at the data seam: garbage, truncated, bit-flipped, extended and head-cut streams, wrong model sequences, read errors, fed to the consumers of all three stream coders",
-         "Decoders of the ANS coder (from_compressed / from_binary over Vec, slice cursor, fallible iterator), the range decoder (owned, borrowed, iterator source) and the chain coder (both constructors) are built over arbitrary or corrupted words and decode with arbitrary well-formed models, with emphasis on lookup tables and lazily quantised models; oracles: no panic, no abort (worker child process on the hardened build), every symbol inside the support of the model it was decoded with, ANS never errs, range only InvalidData, chain only OutOfCompressedData, backend errors only where a read fault was injected; decoding continues after an error.",
-         "A hang would block the worker (no watchdog verdict is ever issued; a stuck batch is a harness error). Supports come from the model specs.", "DESIGN 3 C10"),
+         "Decoders of the ANS coder (from_compressed / from_binary over Vec, slice cursor, fallible iterator), the range decoder (owned, borrowed, iterator source) and the chain coder (both constructors) are built over arbitrary or corrupted words and decode with arbitrary well-formed models, with emphasis on lookup tables and lazily quantised models; oracles: no panic, no abort (worker child process on the hardened build), every symbol inside the support of the model it was decoded with, ANS never errs, range only InvalidData, chain only OutOfCompressedData, backend errors only where a read fault was injected; decoding continues after an error; no decode may hang (quantized models over narrow signed/unsigned symbol types whose support touches the ends of the type are part of the zoo).",
+         "A run that exceeds the wall-clock limit of its worker is localised, re-executed alone in a fresh process, and reported only if it exceeds the limit again (class C10/process-died, status timeout); wall-clock alone never decides a verdict. Supports come from the model specs.", "DESIGN 3 C10"),
  "C11": ("exploration", "deterministic simulation with fault injection: arbitrary words appended after / stored before the sealed message; interval-containment oracle from the unbounded-precision reference at every symbol boundary",
          "Store appends all-ones / all-zero / random words / the same message again after the sealed words, or the encoder starts on a pre-filled sink; the consumer must decode the original symbols; in addition, at every symbol boundary (each is a sealing point) the R-RANGE reference checks arithmetically that the all-ones and all-zeros continuations of the sealed words stay inside [low, low+range). Adversarial (cum,prob) synthesis drives the encoder into the measure-small region (range barely above its minimum, lower just above a word boundary).",
          "Trusted base: R-RANGE (big-integer low, ripple carry).", "DESIGN 3 C11"),
@@ -53,8 +53,8 @@ CLAIMED = {
          "Runs every explorer (ans, range, bits, backend, chain, skew, garbage) with its own workload bias plus the poison world (Cursor::buf_mut shrink/replace then stack reads / reversed writes / ANS coding over the cursor; NaN/inf/negative/denormal/huge float tables and normalisations into every float constructor followed by use of the model; a Distribution whose CDF is NaN / decreasing / constant / out of range at one call; quantile_function with quantile >= 2^P; valid-but-extreme float tables). Verdict rule: a UB-check abort, fatal signal or Miri UB report is always a violation; an overflow panic is a violation for in-contract operations; ordinary panics and Err values are the allowed failure form.",
          "Scope is the generated programs, as the property's quantifier says. Miri (thorough tier, 640 runs) cannot cross FFI and is slow; AddressSanitizer is not used (the UB-check build and Miri are strictly more informative for this crate, see DESIGN 7).", "DESIGN 3 C20"),
  "C18": ("exploration", "deterministic simulation: query-vs-export monitor at every step",
-         "num_words/num_bits/num_valid_bits/is_empty compared after every operation with what exporting at that moment returns; from_binary payload size exact. (Second sentence of the property - entropy/KL diagnostics - is a pure function of a model and is not decided by this technique.)",
-         "Only the coder half (first sentence) is claimed; see not_applicable note in DESIGN section 4.", "DESIGN 3 C18"),
+         "First sentence (coders), by simulation: num_words/num_bits/num_valid_bits/len/is_empty of ANS coder, range encoder and bit-level coders compared after every operation of a seeded history with what exporting at that moment returns; from_binary payload size exact; decoders that consumed exactly the message report maybe_exhausted, decoders with whole words left report false (ANS, range over exact backends, bit queue). Second sentence (model diagnostics): entropy, cross entropy and KL in both directions, floating-point table and floating_point_probability of sampled uniform / categorical / quantized models at six (Probability, PRECISION) combinations incl. full precision, against the textbook definitions on the exact fixed-point probabilities (relative tolerance 1e-9; infinities must agree exactly).",
+         "The second sentence is a pure function of a model: that part of the check is plain seeded input sampling riding on the model zoo, not simulation (no history, schedule or fault exists there); it was added because seeded change C18-B lives in that half. See DESIGN section 4.", "DESIGN 3 C18"),
 }
 
 PENDING = {}  # filled below
